@@ -306,7 +306,12 @@ GUnregister ==
 AllCallees == UNION {Rng(regs[k].callees) : k \in DOMAIN regs}
 GCall ==
   \E s \in (IF Scripted /\ J \ AllCallees # {} THEN J \ AllCallees ELSE J) : \E hit \in (IF Scripted THEN {2} ELSE R(1..3)) :
-  \E u \in R(LET routable == {t \in Targets : BestRegs(Cur, t) # {}} IN IF routable # {} /\ hit # 1 THEN routable ELSE Targets) :
+  \E u \in R(LET routable == {t \in Targets : BestRegs(Cur, t) # {}}
+                 \* (scripted: a call whose INVOCATION can be observed - or, if every callee has stopped reading, one that is not routed)
+                 readable == {t \in routable : \A k \in BestRegs(Cur, t) : \A c \in Rng(regs[k].callees) : ~sess[c].stalled}
+             IN IF Scripted /\ readable # {} THEN readable
+                ELSE IF Scripted /\ Targets \ routable # {} THEN Targets \ routable
+                ELSE IF routable # {} /\ hit # 1 THEN routable ELSE Targets) :
   \E dme \in (IF Scripted THEN {FALSE} ELSE W(<<FALSE, FALSE, TRUE>>)), rprog \in (IF Scripted THEN {TRUE} ELSE R(BOOLEAN)),
      tmo \in (IF Scripted THEN {0} ELSE W(<<0, 0, 1, 50, 1000>>)), ppt \in PptPick(N) :
     LET o == [O0 EXCEPT !.dme = dme, !.rprog = rprog, !.tmo = tmo, !.ppt = ppt]
@@ -409,7 +414,9 @@ GStall ==
                       serving == {x \in all : \E c \in DOMAIN calls : calls[c].callee = x}
                       \* (scripted: somebody who holds a subscription other than to the meta topics - its queue can be filled)
                       listening == {x \in all : \E k \in DOMAIN subs : x \in subs[k].members /\ ~IsWampURI(k[1])}
-                  IN IF Scripted /\ listening # {} THEN listening ELSE IF serving # {} /\ pick # 1 THEN serving ELSE all) :
+                  IN IF Scripted /\ serving \cap listening # {} THEN serving \cap listening
+                     ELSE IF Scripted /\ serving # {} THEN serving
+                     ELSE IF Scripted /\ listening # {} THEN listening ELSE IF serving # {} /\ pick # 1 THEN serving ELSE all) :
          Step([In0 EXCEPT !.op = "stall", !.s = s], StallFx(Cur, s))
 
 \* the caller of a pending call stops reading (its callee's next YIELD is then held back, C07)
